@@ -132,6 +132,10 @@ func verifyFunction(p *Program, fn *ssa.Function, c *Contract) (s *Session, err 
 	}
 	s.addObl(&Obligation{Name: c.Key() + "#pre-sat", Kind: "cover", Guard: "true", Goal: "true", Cover: true,
 		Clause: "preconditions and representation invariants are satisfiable (vacuity guard)"})
+	for _, rf := range c.ResetFirst {
+		s.addObl(&Obligation{Name: c.Key() + "#reset-first(" + rf.Text + ")", Kind: "structure", Guard: "true", Goal: boolTerm(resetFirst(fn, rf.Text)),
+			Clause: "the field " + rf.Text + " is overwritten in the entry block before any call or any read of it"})
+	}
 	f.setupRecover()
 	if c.Recover && !f.recoverSc {
 		s.addObl(&Obligation{Name: c.Key() + "#recover-scope", Kind: "structure", Guard: "true", Goal: "false",
@@ -155,7 +159,11 @@ func boolTerm(b bool) string {
 }
 
 func recoverUnconditional(fn *ssa.Function) bool {
-	for _, ins := range fn.Blocks[0].Instrs {
+	var all []ssa.Instruction
+	for _, b := range fn.Blocks {
+		all = append(all, b.Instrs...)
+	}
+	for _, ins := range all {
 		if d, ok := ins.(*ssa.Defer); ok {
 			if mc, ok := d.Call.Value.(*ssa.MakeClosure); ok {
 				cl := mc.Fn.(*ssa.Function)
@@ -529,7 +537,20 @@ func (f *Frame) applyContract(sig *types.Signature, ct *Contract, env map[string
 		if len(ct.PanicsOnlyIf) == 0 && !ct.MayPanic {
 			// only panics_if clauses: may panic for other reasons too -> treated as maypanic
 		}
+		// a callee that panics may have performed part of its modifications
+		var dirty []string
+		for _, m := range ct.Modifies {
+			for _, kr := range g.resolveModTargets(m, preView) {
+				for _, k := range sortedKeys(s.sorts) {
+					if k == kr[0] || strings.HasPrefix(k, kr[0]+".") {
+						dirty = append(dirty, k)
+					}
+				}
+			}
+		}
+		f.pendingDirty = dirty
 		f.panicSite(pc, "call-panic", calleeName+": "+desc, pos)
+		f.pendingDirty = nil
 	}
 	// modifies of the callee, resolved in the caller's state
 	mods := map[string][]modLoc{}
@@ -709,4 +730,38 @@ func (f *Frame) invoke(x *ssa.Call, c *ssa.CallCommon, pos string) Val {
 func (f *Frame) dynamicCall(x *ssa.Call, c *ssa.CallCommon, pos string) Val {
 	f.abort("dynamic call through a function value that is not statically known: %s", f.srcExpr(x, "call"))
 	return nil
+}
+
+// resetFirst: in the entry block, recv.<field> is stored to before any call and before any load of that field.
+func resetFirst(fn *ssa.Function, target string) bool {
+	parts := strings.Split(target, ".")
+	if len(parts) != 2 || len(fn.Params) == 0 || fn.Params[0].Name() != parts[0] {
+		return false
+	}
+	field := parts[1]
+	isField := func(v ssa.Value) bool {
+		fa, ok := v.(*ssa.FieldAddr)
+		if !ok || fa.X != ssa.Value(fn.Params[0]) {
+			return false
+		}
+		st := fa.X.Type().Underlying().(*types.Pointer).Elem().Underlying().(*types.Struct)
+		return st.Field(fa.Field).Name() == field
+	}
+	for _, ins := range fn.Blocks[0].Instrs {
+		switch x := ins.(type) {
+		case *ssa.Store:
+			if isField(x.Addr) {
+				return true
+			}
+		case *ssa.UnOp:
+			if isField(x.X) {
+				return false
+			}
+		case *ssa.Call:
+			if _, isBuiltin := x.Call.Value.(*ssa.Builtin); !isBuiltin {
+				return false
+			}
+		}
+	}
+	return false
 }
